@@ -112,7 +112,11 @@ def datadesc(datafield: str) -> str:
     :rtype: str
     """
 
-    (_, _, _, desc) = RTCM_DATA_FIELDS[datafield[0:5]]
+    # strip any (nested) group indices e.g. "IDF024_03_01" -> "IDF024"
+    dfld = datafield
+    while dfld not in RTCM_DATA_FIELDS and "_" in dfld:
+        dfld = dfld.rsplit("_", 1)[0]
+    (_, _, _, desc) = RTCM_DATA_FIELDS[dfld]
     return desc
 
 
